@@ -80,7 +80,8 @@ impl BitVec
                 bigint.get_bit(size - 1 - i));
         }
 
-        if index + size > self.len
+        // An empty value writes nothing and does not extend the output
+        if size > 0 && index + size > self.len
         {
             self.len = index + size;
         }
